@@ -44,8 +44,8 @@ TRUSTED = [
     "(_create_simulants, on_initialize_simulants) incl. pandas reindex promotion (bool->object, int64->float64), "
     "Series.equals, numpy/Arrow setitem and astype semantics inside {bool,int64,float64,object} - validated on the "
     "explored cases only",
-    "C11: the manager's flags are cross-checked through the private attribute InteractiveContext._population when "
-    "readable (read defensively; skipped otherwise); everything else goes through public interfaces (Component hooks, "
+    "C11: no private name of /repo/src is read: the population manager is looked up BY TYPE among the context's "
+    "attributes to cross-check its public flags (skipped if not found); everything else goes through public interfaces (Component hooks, "
     "builder.population.get_view/get_simulant_creator, PopulationView.update/get/subview, "
     "InteractiveContext.get_population/step)",
     "C11: copy semantics (frames handed out earlier are unaffected; writing into a returned frame does not reach the "
@@ -83,7 +83,7 @@ def streams(tier):
     return [
         Stream(name="hist", imports="From Viv Require Import Common Population.", check="check_pop",
                gen=lambda rng: popdrv.gen_program(rng, "update"), run=popdrv.run_program, corpus=_corpus,
-               n_quick=230, n_thorough=2400, finding_of=popdrv.finding_of,
+               n_quick=230, n_thorough=2400, finding_of=popdrv.finding_of, shrink=popdrv.shrink_program,
                doc="update histories on real contexts, full-table comparison after every operation"),
     ]
 
